@@ -61,3 +61,11 @@ def pick(sel, options):
         if sel == i:
             return o
     raise IndexError("selector out of range")
+
+
+def pick_index(sel, n):
+    """the concrete int equal to sel (sel may be symbolic: one path per value)"""
+    for i in range(n):
+        if sel == i:
+            return i
+    raise IndexError("selector out of range")
